@@ -139,10 +139,14 @@ func textsOver(units []string, max int) [][]int {
 func reCases(c *lib.Ctx, pool *evPool) []reCase {
 	rnd := rand.New(rand.NewSource(c.Seed*1299709 + 41))
 	units := []string{"a", "b", ",", "é", "\xff"}
+	if c.Quick() {
+		units = []string{"a", "b", "é", "\xff"}
+	}
 	subjects := textsOver(units, c.Pick(3, 4))
+	subjects = append(subjects, fromString(","), fromString("a,b"), fromString(",a,"), fromString("a,,b"))
 	// longer, random subjects over a richer alphabet
 	rich := []string{"a", "b", ",", "é", "\xff", "\x80", "ab", " ", "你", "A", "\n"}
-	for i := 0; i < c.Pick(60, 1500); i++ {
+	for i := 0; i < c.Pick(60, 600); i++ {
 		l := 4 + rnd.Intn(5)
 		var sb strings.Builder
 		for j := 0; j < l; j++ {
